@@ -38,6 +38,31 @@ def rule_r15(ctx, prog, rule="R15"):
                 detail = "%s over %s with the filtering closure" % (spec["trav"], "→".join(reversed(chain)) + "(self)" if chain else "self")
             else:
                 detail = "the traversal is over `%s` via %s: not every element of the receiver is visited exactly once" % (fmt(re_), chain)
+        if not ok and not trav and name == "visit_skipnan":
+            # delegation: visiting = fold_skipnan with a unit accumulator, the closure handing the not-NaN item to f exactly once
+            for bb, t in root.calls():
+                if callee_name(t) != "fold_skipnan":
+                    continue
+                args = root.call_arg_exprs(bb)
+                if len(args) != 3 or strip(args[0]) != ("param", 1, "self"):
+                    continue
+                clo = strip(args[2])
+                if not (isinstance(clo, tuple) and clo[0] == "agg" and clo[1] == "closure" and clo[2] in prog.bodies):
+                    continue
+                c2 = prog.bodies[clo[2]]
+                uc = [(cbb, ct) for cbb, ct in c2.calls() if callee_name(ct) in USER_CALL]
+                if len(uc) != 1 or len(list(c2.calls())) != 1:
+                    continue
+                cbb, ct = uc[0]
+                a2 = c2.call_arg_exprs(cbb)
+                fb, fe = up(prog, c2, a2[0])
+                tup = strip(a2[1])
+                item_ok = isinstance(tup, tuple) and tup[0] == "agg" and len(tup[3]) == 1 and strip(tup[3][0])[:2] == ("param", c2.arg_count)
+                f_ok = fb is root and strip(fe)[:2] == ("param", 2)
+                uncond = not any(c2.term(x)["k"] == "switch" for x in c2.live_blocks())
+                if item_ok and f_ok and uncond:
+                    ok = True
+                    detail = "delegates to fold_skipnan(self, (), |(), x| f(x)): the verified NaN-skipping fold hands every non-missing element to f once"
         ctx.ob(rule, "%s/traversal" % name, ok, root.where(), detail, what="skip-NaN traversal does not cover the receiver")
         if not clo_key:
             continue
@@ -195,7 +220,42 @@ def rule_lane_forms(ctx, prog, rule="R15"):
                 if isinstance(de, tuple) and de[0] == "call" and de[1] == "is_empty" and strip(de[3][0]) == stripped:
                     sw = (sbb, st)
         if sw is None:
-            detail = "no is_empty() branch on the stripped lane"
+            # `bool::then` form:  from_not_nan_opt((!stripped.is_empty()).then(|| stripped.quantile_axis_mut(Axis(0), q, i).unwrap().into_scalar()))
+            r = strip(c.return_expr())
+            okt = False
+            if isinstance(r, tuple) and r[0] == "call" and r[1] == "from_not_nan_opt" and r[3]:
+                x = strip(r[3][0])
+                if isinstance(x, tuple) and x[0] == "call" and x[1] == "then" and len(x[3]) == 2:
+                    cond = strip(x[3][0])
+                    neg = False
+                    while isinstance(cond, tuple) and cond[0] == "unop" and cond[1] == "Not":
+                        neg = not neg
+                        cond = strip(cond[2])
+                    cond_ok = neg and isinstance(cond, tuple) and cond[0] == "call" and cond[1] == "is_empty" and strip(cond[3][0]) == stripped
+                    clo2 = strip(x[3][1])
+                    if cond_ok and isinstance(clo2, tuple) and clo2[0] == "agg" and clo2[1] == "closure" and clo2[2] in prog.bodies:
+                        c2 = prog.bodies[clo2[2]]
+                        v = strip(c2.return_expr())
+                        for _ in range(4):
+                            if isinstance(v, tuple) and v[0] == "call" and v[1] in ("into_scalar", "unwrap", "expect") and v[3]:
+                                v = strip(v[3][0])
+                        if isinstance(v, tuple) and v[0] == "call" and v[1] in ("quantile_axis_mut", "quantile_mut"):
+                            a2 = v[3]
+                            rb, re_ = up(prog, c2, a2[0])
+                            qarg, iarg = (a2[2], a2[3]) if v[1] == "quantile_axis_mut" else (a2[1], a2[2])
+                            ub, qe = up(prog, c2, qarg)
+                            ub2, ie = up(prog, c2, iarg)
+                            recv_ok = rb is c and strip(re_) == stripped
+                            qok = ub is q and strip(qe)[:2] == ("param", 3)
+                            iok = ub2 is q and strip(ie)[:2] == ("param", 4)
+                            okt = recv_ok and qok and iok
+                            detail = ("stripped lane → (!is_empty()).then(plain quantile with the caller's q and strategy) → from_not_nan_opt" if okt else
+                                      "then-form: receiver=stripped lane:%s q=caller's:%s strategy=caller's:%s" % (recv_ok, qok, iok))
+            if okt:
+                ok = True
+                break
+            if not detail.startswith("then-form"):
+                detail = "no is_empty() branch on the stripped lane"
             continue
         sbb, st = sw
         f = [tgt for v, tgt in st["arms"] if v == 0][0]
